@@ -86,7 +86,7 @@ def required(tier):
             "arith_value_checks": 25000, "arith_refused_checks": 15000, "inplace_twins": 15000,
             "log_conv_checks": 1500, "log_pairs": 49, "parse_checks": 1500, "generated_offset_units": 200,
             "cell_mode_matrix": 2000, "rules_used": 40, "add_sub_branches": 9, "iadd_sub_branches": 9,
-            "modes": 4, "result_unit_definedness_checks": 20000}
+            "modes": 4, "result_unit_definedness_checks": 20000, "redefined_offset_probes": 60}
 
 
 def shards(tier, seed):
@@ -108,6 +108,7 @@ def shards(tier, seed):
         out.append({"kind": "log", "auto": a, "name": f"log-a{int(a)}", "mags": 3 if q else 12})
     out.append({"kind": "conv", "name": "conv", "mags": 6 if q else 40})
     out.append({"kind": "parse", "name": "parse", "n": 1 if q else 6})
+    out.append({"kind": "redef", "name": "redef", "n": 12 if q else 120})
     return out
 
 
@@ -1243,6 +1244,64 @@ def run_parse(spec, rec, rng, pintload, pint, m):
 
 
 # ---------------------------------------------------------------------------
+def run_redef(spec, rec, rng, pint):
+    """An offset unit that is defined AGAIN - by a later line of the same text, by a second define(), or by a
+    context that redefines it: the unit and its delta companion both follow the definition in force
+    (x degX = scale * x + offset kelvin; 1 delta_degX = scale kelvin), and the first one again afterwards."""
+    from fractions import Fraction as F
+    base = ["K = [temperature] = kelvin", "m = [length]"]
+    for i in range(spec["n"]):
+        a1, a2 = F(rng.randint(2, 9), rng.choice((1, 2, 4))), F(rng.randint(10, 19), rng.choice((1, 2, 4)))
+        o1, o2 = F(rng.randint(-50, 50)), F(rng.randint(60, 300))
+        line = lambda a, o: f"degX = {a.numerator} / {a.denominator} * K; offset: {o.numerator} = dX"  # noqa: E731
+        path = ("later-line", "define-again", "context")[i % 3]
+        if path == "later-line":
+            ureg = pint.UnitRegistry(base + [line(a1, o1), line(a2, o2)], non_int_type=F, cache_folder=None,
+                                     on_redefinition="ignore")
+            stages = [("after", a2, o2, None)]
+        elif path == "define-again":
+            ureg = pint.UnitRegistry(base + [line(a1, o1)], non_int_type=F, cache_folder=None, on_redefinition="ignore")
+            stages = [("before", a1, o1, None), ("after", a2, o2, lambda: ureg.define(line(a2, o2)))]
+        else:
+            ureg = pint.UnitRegistry(base + [line(a1, o1)], non_int_type=F, cache_folder=None)
+            ctx = pint.Context("cx")
+            ctx.redefine(f"degX = {float(a2)!r} * K; offset: {float(o2)!r}")
+            ureg.add_context(ctx)
+            stages = [("before", a1, o1, None), ("inside", a2, o2, lambda: ureg.enable_contexts("cx")),
+                      ("left", a1, o1, lambda: ureg.disable_contexts())]
+        Q = ureg.Quantity
+        for stage, a, o, act in stages:
+            if act:
+                try:
+                    act()
+                except Exception as e:  # noqa: BLE001
+                    rec.violation("redefinition-raised", {"path": path, "stage": stage, "err": repr(e)[:200]},
+                                  workload="redef", path=path)
+                    break
+            x = F(rng.randint(-20, 40))
+            probes = {
+                "offset-unit-to-kelvin": (lambda: Q(x, "degX").to("K").magnitude, a * x + o),
+                "delta-unit-to-kelvin": (lambda: Q(F(1), "delta_degX").to("K").magnitude, a),
+                "difference-in-kelvin": (lambda: (Q(F(5), "degX") - Q(F(1), "degX")).to("K").magnitude, 4 * a),
+                "kelvin-to-delta": (lambda: Q(a * 3, "K").to("delta_degX").magnitude, F(3)),
+            }
+            for pname, (fn, want) in probes.items():
+                rec.count("redefined_offset_probes")
+                rec.case(("redef", path, stage, pname, str(a), str(o)), nontrivial=stage != "before")
+                try:
+                    got = fn()
+                except Exception as e:  # noqa: BLE001
+                    rec.violation("redefined-offset-unit-raised", {"path": path, "stage": stage, "probe": pname,
+                                                                   "err": repr(e)[:200]}, workload="redef", path=path, probe=pname)
+                    continue
+                ok = (F(got) == want) if path != "context" else abs(float(got) - float(want)) <= 1e-9 * max(1.0, abs(float(want)))
+                if not ok:
+                    rec.violation("redefined-offset-unit-wrong", {"path": path, "stage": stage, "probe": pname,
+                                                                  "first": f"{a1} K, offset {o1}", "second": f"{a2} K, offset {o2}",
+                                                                  "got": str(got), "want": str(want)},
+                                  workload="redef", path=path, probe=pname, stage=stage)
+
+
 def run_shard(spec, rec):
     from harness import pintload, refmodel
     import pint
@@ -1261,6 +1320,8 @@ def run_shard(spec, rec):
         run_conv(spec, rec, rng, pintload, pint, m)
     elif kind == "parse":
         run_parse(spec, rec, rng, pintload, pint, m)
+    elif kind == "redef":
+        run_redef(spec, rec, rng, pint)
     else:
         rec.inconc(f"unknown shard kind {kind}")
     watch.report(rec)
